@@ -331,6 +331,9 @@ func runRace(c *lib.Case) {
 		if rng.Intn(2) == 0 {
 			pol.tags = []string{rr.shared[rng.Intn(len(rr.shared))]}
 		}
+		if pol.refuse {
+			pol.refuseErr = dialErrs[rng.Intn(len(dialErrs))]
+		}
 		e.dialPol[p] = pol
 	}
 	e.mu.Unlock()
